@@ -277,6 +277,14 @@ def splice(cur_src, annot_src, fname, log):
                 comment_only = all(x == '' or x.startswith('//') for x in nb[i1:i2]) and all(x == '' or x.startswith('//') for x in nc[j1:j2])
                 if not (blank_only or comment_only):
                     small = tag == 'replace' and (i2 - i1) == (j2 - j1) and (j2 - j1) <= 3
+                    if small:
+                        # an in-place edit that adds or removes control flow (an early return, a `?`, a branch, a loop)
+                        # changes which statements -- and which proof hints -- lie on which path: that is restructuring
+                        def flow(ls):
+                            t = ' '.join(ls)
+                            return sorted(re.findall(r'\b(?:return|break|continue|if|else|match|while|for|loop)\b|\?;|\?\)', t))
+                        if flow(nb[i1:i2]) != flow(nc[j1:j2]):
+                            small = False
                     kind = 'edit' if small else 'struct'
                     lo, hi = (j1, j2) if j2 > j1 else (max(j1 - 1, 0), min(j1 + 1, len(nc)))
                     for j in range(lo, hi):
